@@ -494,40 +494,41 @@ func prod(sizes []int) int {
 
 var portEdge = []int{0, 1, 65534, 65535}
 
-func pairMenu(thorough bool) []*[2]int {
+// pairMenu: nil plus port pairs; level 0: 2 pairs, 1: 4 pairs, 2: all 16 pairs over {0,1,65534,65535}.
+func pairMenu(level int) []*[2]int {
 	m := []*[2]int{nil}
-	if thorough {
+	switch level {
+	case 0:
+		m = append(m, &[2]int{0, 1}, &[2]int{65534, 65535})
+	case 1:
+		m = append(m, &[2]int{0, 1}, &[2]int{65534, 65535}, &[2]int{1, 0}, &[2]int{65535, 65535})
+	default:
 		for _, a := range portEdge {
 			for _, b := range portEdge {
 				m = append(m, &[2]int{a, b})
 			}
 		}
-	} else {
-		m = append(m, &[2]int{0, 1}, &[2]int{65534, 65535}, &[2]int{1, 0}, &[2]int{65535, 65535})
 	}
 	return m
 }
 
+// transportGen: the full product of every field menu. The four port-pair fields are parsed by one function and do
+// not interact with the other fields, so their large menus get a product of their own (transportGenPairs) and a
+// small menu here (quick: nil + 2 pairs, thorough: nil + 4 pairs).
 func transportGen(thorough bool) (int, func(i int) spec) {
-	pairs := pairMenu(thorough)
+	pairs := pairMenu(0)
 	deliveries := []*headers.TransportDelivery{nil, ptr(headers.TransportDeliveryUnicast), ptr(headers.TransportDeliveryMulticast)}
 	sources := []*string{nil, ptr("10.0.0.1")}
 	dests := []*string{nil, ptr("224.1.2.3")}
 	if thorough {
+		pairs = pairMenu(1)
 		sources = append(sources, ptr("cam-1.example.com"))
 		dests = append(dests, ptr("[ff02::1]"))
 	}
 	ttls := []*uint{nil, ptr(uint(0)), ptr(uint(1)), ptr(uint(255))}
-	ssrcs := []*uint32{nil, ptr(uint32(0)), ptr(uint32(1)), ptr(uint32(0xFFFFFFFF))}
+	ssrcs := []*uint32{nil, ptr(uint32(0)), ptr(uint32(1)), ptr(uint32(0x01020304)), ptr(uint32(0xFFFFFFFF))}
 	modes := []*headers.TransportMode{nil, ptr(headers.TransportModePlay), ptr(headers.TransportModeRecord)}
 	sizes := []int{2, 2, len(deliveries), len(sources), len(dests), len(pairs), len(pairs), len(ttls), len(pairs), len(pairs), len(ssrcs), len(modes)}
-	if thorough {
-		// the four port fields are parsed by the same function and do not interact: the full 17^4 product is
-		// replaced by 17^2 (interleaved x port) x 17^2 (client_port x server_port) with the other pair at {nil, one value}
-		// -- see transportGenPairs; here the non-port fields get the full product with the quick pair menu.
-		sizes[5], sizes[6], sizes[8], sizes[9] = 5, 5, 5, 5
-		pairs = pairMenu(false)
-	}
 	return prod(sizes), func(i int) spec {
 		var d [12]int
 		digits(i, sizes, d[:])
@@ -539,9 +540,13 @@ func transportGen(thorough bool) (int, func(i int) spec) {
 	}
 }
 
-// transportGenPairs (thorough): all 17^4 combinations of the four port-pair fields x profile x protocol x delivery.
-func transportGenPairs() (int, func(i int) spec) {
-	pairs := pairMenu(true)
+// transportGenPairs: all combinations of the four port-pair fields (quick: nil + 4 pairs each = 5^4, thorough: nil +
+// all 16 pairs over 0/1/65534/65535 each = 17^4) x profile x protocol x delivery.
+func transportGenPairs(thorough bool) (int, func(i int) spec) {
+	pairs := pairMenu(1)
+	if thorough {
+		pairs = pairMenu(2)
+	}
 	deliveries := []*headers.TransportDelivery{nil, ptr(headers.TransportDeliveryUnicast), ptr(headers.TransportDeliveryMulticast)}
 	P := len(pairs)
 	sizes := []int{2, 2, len(deliveries), P, P, P, P}
@@ -682,7 +687,7 @@ func rangeMiscSpecs() []spec {
 	for _, zone := range []int{0, 7200, -34200} {
 		cls := "utc"
 		if zone != 0 {
-			cls = "utc-non-utc-location"
+			cls = "non-utc-location/clock"
 		}
 		for _, a := range utcs {
 			for _, tp := range []*int64{nil, &tm} {
@@ -696,7 +701,7 @@ func rangeMiscSpecs() []spec {
 	}
 	// time= in a non-UTC location on an NPT range
 	for _, zone := range []int{7200, -34200} {
-		out = append(out, rangeSpec{Unit: "npt", Start: s, ZoneOff: zone, Time: &tm, Cls: "time-non-utc-location"})
+		out = append(out, rangeSpec{Unit: "npt", Start: s, ZoneOff: zone, Time: &tm, Cls: "non-utc-location/time"})
 	}
 	return out
 }
@@ -706,8 +711,8 @@ func rtpInfoGen(thorough bool) (int, func(i int) spec) {
 	if thorough {
 		urls = append(urls, "trackID=1")
 	}
-	seqs := []*uint16{nil, ptr(uint16(0)), ptr(uint16(1)), ptr(uint16(65535))}
-	tss := []*uint32{nil, ptr(uint32(0)), ptr(uint32(1)), ptr(uint32(0xFFFFFFFF))}
+	seqs := []*uint16{nil, ptr(uint16(0)), ptr(uint16(0x0102)), ptr(uint16(65535))}
+	tss := []*uint32{nil, ptr(uint32(0)), ptr(uint32(0x01020304)), ptr(uint32(0xFFFFFFFF))}
 	var entries []headers.RTPInfoEntry
 	for _, u := range urls {
 		for _, s := range seqs {
